@@ -158,17 +158,52 @@ def check_core_family(prop, tier):
 TRACE_DIR = os.path.join(verif.SPEC, "trace")
 
 
-def validate_trace(module, cfg, trace_path, timeout=3000):
-    """Implementation -> specification: TLC checks every recorded behaviour in trace_path
-    against spec/trace/<module>. Returns (number of behaviours, list of rejected ones)."""
+def _validate_part(module, cfg, trace_path, timeout, tag):
     res = verif.run_tlc(os.path.join(TRACE_DIR, module), cfg, workers=1, timeout=timeout,
-                        env_extra={"TRACE": trace_path}, tag=module.replace(".tla", ""))
+                        env_extra={"TRACE": trace_path}, tag=tag)
     recs = verif.printed_records(res["out"], "RESULT")
     if not recs:
         tail = "\n".join(res["out"].splitlines()[-30:])
         raise ToolError("trace validation did not finish (%s on %s):\n%s" % (module, trace_path, tail))
-    r = recs[-1]
-    return r["n"], r["bad"], res
+    return recs[-1], res
+
+
+def validate_trace(module, cfg, trace_path, timeout=3000):
+    """Implementation -> specification: TLC checks every recorded behaviour in trace_path
+    against spec/trace/<module>. Returns (number of behaviours, list of rejected ones, tlc result).
+    One line = one object history, validated independently of the others, so a long trace is cut into
+    parts that separate TLC processes validate side by side (line numbers are mapped back)."""
+    with open(trace_path) as f:
+        lines = f.readlines()
+    nparts = min(8, len(lines) // 12000 + 1)
+    if nparts <= 1:
+        r, res = _validate_part(module, cfg, trace_path, timeout, module.replace(".tla", ""))
+        return r["n"], r["bad"], res
+    from concurrent.futures import ThreadPoolExecutor
+    size = (len(lines) + nparts - 1) // nparts
+    parts = []
+    for i in range(nparts):
+        pp = "%s.part%d" % (trace_path, i)
+        with open(pp, "w") as f:
+            f.writelines(lines[i * size:(i + 1) * size])
+        parts.append(pp)
+    t0 = time.time()
+    with ThreadPoolExecutor(max_workers=nparts) as ex:
+        futs = [ex.submit(_validate_part, module, cfg, pp, timeout, "%s-part%d" % (module.replace(".tla", ""), i)) for i, pp in enumerate(parts)]
+        outs = [f.result() for f in futs]
+    n = 0
+    bad = []
+    for i, (r, _res) in enumerate(outs):
+        n += r["n"]
+        for b in r["bad"]:
+            b = dict(b)
+            b["line"] += i * size
+            bad.append(b)
+    for pp in parts:
+        os.remove(pp)
+    res = dict(outs[0][1])
+    res["wall"] = time.time() - t0
+    return n, bad, res
 
 
 BUILDER_ASSUMPTIONS = [
